@@ -568,8 +568,8 @@ def as_str(v):
         return Str(v.ch)
     if isinstance(v, Atom):
         return Str(v.ch)
-    if isinstance(v, Opaque):
-        return Str([])
+    if isinstance(v, Opaque) and v.what != "static":
+        return Str([])                 # formatted messages (format! is a no-op): only ever handed to the sink
     raise Unsupported("expected str-like, got %r" % (v,))
 
 
@@ -1067,10 +1067,32 @@ def index_special(m, v):
 M["index_special"] = index_special
 
 
+def atom_pack(a):
+    """string_cache's 64-bit representation of an atom that is not in a static set: inline for <= 7 bytes"""
+    bs = byte_view(a.ch)
+    if len(bs) > 7:
+        raise Unsupported("64-bit representation of an atom longer than 7 bytes (static/dynamic atom)")
+    if all(isinstance(b, int) for b in bs):
+        v = (len(bs) << 4) | 1
+        for i, b in enumerate(bs):
+            v |= b << (8 * (i + 1))
+        return v
+    v = z3.BitVecVal((len(bs) << 4) | 1, 64)
+    for i, b in enumerate(bs):
+        bb = z3.ZeroExt(56, b) if is_sym(b) else z3.BitVecVal(b, 64)
+        v = v | (bb << (8 * (i + 1)))
+    return v
+
+
 def field_special(m, v, n, ty):
     if isinstance(v, Guard):
         inner = v.p.load()
         return Ptr(inner.f, n)
+    if isinstance(v, Atom):
+        # Atom { unsafe_data: NonZero<u64> } . 0 (NonZeroU64Inner) . 0 (u64): patterns on atoms compare this integer
+        if "NonZero" in ty:
+            return Ptr([v], 0)
+        return Ptr([atom_pack(v)], 0)
     raise Unsupported("field %d of %r" % (n, v))
 
 
@@ -1826,3 +1848,266 @@ def vec_intoiter_next(m, a, c):
 @model("<IntoIter as Drop>::drop", "<std::vec::IntoIter as Drop>::drop", "<Vec as Drop>::drop")
 def noop_drop(m, a, c):
     return UNIT
+
+
+# ---------------------------------------------------------------- XML tree builder support: TreeSink recorder, HashSet, filter/chain iterators
+class ListIter:
+    """iterator over a fixed Python list of already-built items (returned as they are)"""
+    __slots__ = ("items", "i")
+
+    def __init__(self, items):
+        self.items, self.i = list(items), 0
+
+
+class FilterM:
+    __slots__ = ("it", "clo")
+
+    def __init__(self, it, clo):
+        self.it, self.clo = it, clo
+
+
+def sink_state(m):
+    return m.notes.setdefault("tree", {"next": 1, "names": {}, "calls": []})
+
+
+@model("<Sink as TreeSink>::get_document")
+def ts_get_document(m, a, c):
+    sink_state(m)
+    return 0
+
+
+@model("markup5ever::interface::create_element", "interface::create_element", "create_element")
+def ts_create_element(m, a, c):
+    st = sink_state(m)
+    h = st["next"]
+    st["next"] += 1
+    name, attrs = a[1], a[2]
+    st["names"][h] = name
+    st["calls"].append(("create_element", h, clone_val(name), [clone_val(x) for x in attrs.v]))
+    return h
+
+
+@model("<Sink as TreeSink>::create_comment", "<Sink as TreeSink>::create_pi")
+def ts_create_other(m, a, c):
+    st = sink_state(m)
+    h = st["next"]
+    st["next"] += 1
+    st["calls"].append((c.split("::")[-1], h))
+    return h
+
+
+@model("<Sink as TreeSink>::append", "<Sink as TreeSink>::pop", "<Sink as TreeSink>::parse_error", "<Sink as TreeSink>::append_doctype_to_document")
+def ts_record(m, a, c):
+    st = sink_state(m)
+    nm = c.split("::")[-1]
+    if nm == "append":
+        child = a[2]
+        st["calls"].append(("append", deref(a[1]), child.variant, child.f[0] if child.variant == "AppendNode" else None))
+    elif nm == "pop":
+        st["calls"].append(("pop", deref(a[1])))
+    elif nm == "parse_error":
+        st["calls"].append(("parse_error", repr(a[1:])))
+    return UNIT
+
+
+class ElemNameM:
+    __slots__ = ("q",)
+
+    def __init__(self, q):
+        self.q = q
+
+
+@model("<Sink as TreeSink>::elem_name")
+def ts_elem_name(m, a, c):
+    st = sink_state(m)
+    h = deref(a[1])
+    if h not in st["names"]:
+        raise Panic("TreeSink contract: elem_name called on a handle that is not an element created by this sink (%r)" % (h,))
+    return ElemNameM(st["names"][h])
+
+
+@model("<ElemName as ElemName>::expanded", "<<Sink as TreeSink>::ElemName as ElemName>::expanded", "QualName::expanded", "markup5ever::QualName::expanded")
+def qn_expanded(m, a, c):
+    x = deref(a[0]) if not isinstance(a[0], ElemNameM) else a[0]
+    q = x.q if isinstance(x, ElemNameM) else x
+    return Struct("ExpandedName", [Ptr(q.f, 1), Ptr(q.f, 2)])
+
+
+@model("<ElemName as ElemName>::local_name", "<<Sink as TreeSink>::ElemName as ElemName>::local_name")
+def en_local_name(m, a, c):
+    x = deref(a[0]) if not isinstance(a[0], ElemNameM) else a[0]
+    return Ptr(x.q.f, 2)
+
+
+@model("<ExpandedName as PartialEq>::eq")
+def expanded_eq(m, a, c):
+    x, y = deref(a[0]), deref(a[1])
+    return b_and(val_eq(x.f[0], y.f[0]), val_eq(x.f[1], y.f[1]))
+
+
+class SetM:
+    __slots__ = ("items",)
+
+    def __init__(self):
+        self.items = []
+
+
+@model("<HashSet as Default>::default", "HashSet::new")
+def hashset_new(m, a, c):
+    return SetM()
+
+
+def _tuple_eq(x, y):
+    x, y = deref(x), deref(y)
+    return b_and(*[val_eq(p, q) for p, q in zip(x.f, y.f)])
+
+
+@model("HashSet::contains")
+def hashset_contains(m, a, c):
+    s = deref(a[0])
+    for it in s.items:
+        if m.branch_bool(_tuple_eq(it, a[1]), "HashSet::contains"):
+            return True
+    return False
+
+
+@model("HashSet::insert")
+def hashset_insert(m, a, c):
+    s = deref(a[0])
+    for it in s.items:
+        if m.branch_bool(_tuple_eq(it, a[1]), "HashSet::insert"):
+            return False
+    s.items.append(a[1])
+    return True
+
+
+@model("core::slice::<impl [T]>::iter_mut")
+def slice_iter_mut(m, a, c):
+    return Iter(seq_of(a[0]), "slice")
+
+
+@model("<IterMut as Iterator>::filter", "<Iter as Iterator>::filter")
+def iter_filter(m, a, c):
+    return FilterM(a[0], a[1])
+
+
+@model("<Filter as Iterator>::next")
+def filter_next(m, a, c):
+    f = deref(a[0])
+    it = f.it
+    while it.i < len(it.seq):
+        idx = it.i
+        it.i += 1
+        elem = Ptr(it.seq, idx)
+        r = m.prog.call_closure(m, Ptr([f.clo], 0), [Ptr([elem], 0)])
+        if m.branch_bool(r, "filter"):
+            return some(elem)
+    return none()
+
+
+@model("<Filter as IntoIterator>::into_iter", "<Chain as IntoIterator>::into_iter", "<Drain as IntoIterator>::into_iter")
+def into_iter_identity2(m, a, c):
+    return a[0]
+
+
+@model("<Iter as Iterator>::chain")
+def iter_chain(m, a, c):
+    it, other = a[0], a[1]
+    items = [Ptr(it.seq, i) for i in range(it.i, len(it.seq))]
+    if isinstance(other, Enum) and other.ty == "Option":
+        if other.variant == "Some":
+            items.append(other.f[0])
+    else:
+        raise Unsupported("chain with %r" % (other,))
+    return ListIter(items)
+
+
+@model("<Chain as Iterator>::rev", "<Drain as Iterator>::rev")
+def listiter_rev(m, a, c):
+    it = a[0]
+    return ListIter(list(reversed(it.items[it.i:])))
+
+
+_old_rev_next = M["<Rev as Iterator>::next"]
+
+
+def _rev_next(m, a, c):
+    it = deref(a[0])
+    if isinstance(it, ListIter):
+        if it.i < len(it.items):
+            it.i += 1
+            return some(it.items[it.i - 1])
+        return none()
+    return _old_rev_next(m, a, c)
+
+
+M["<Rev as Iterator>::next"] = _rev_next
+
+
+@model("Vec::drain")
+def vec_drain(m, a, c):
+    v = V(a[0])
+    items = list(v.v)
+    v.v[:] = []
+    return ListIter(items)
+
+
+@model("<Drain as Drop>::drop", "<Rev as Drop>::drop")
+def drain_drop(m, a, c):
+    return UNIT
+
+
+@model("VecDeque::new")
+def vecdeque_new(m, a, c):
+    return VecM()
+
+
+@model("VecDeque::is_empty")
+def vecdeque_is_empty(m, a, c):
+    return len(V(a[0]).v) == 0
+
+
+@model("VecDeque::pop_front")
+def vecdeque_pop_front(m, a, c):
+    v = V(a[0])
+    return some(v.v.pop(0)) if v.v else none()
+
+
+@model("<TagSet as Fn>::call", "<P as Fn>::call", "<F as Fn>::call", "<TagSet as FnOnce>::call_once", "<P as FnOnce>::call_once")
+def fn_call(m, a, c):
+    f, args = a[0], a[1]
+    argv = list(args.f) if isinstance(args, Tup) else ([] if args == UNIT else [args])
+    return m.prog.call_closure(m, f, argv)
+
+
+@model("core::str::<impl str>::bytes", "str::bytes")
+def str_bytes_iter(m, a, c):
+    return Iter(bytes_of(a[0]), "bytes")
+
+
+@model("<Bytes as Iterator>::all")
+def bytes_all(m, a, c):
+    it = deref(a[0])
+    for i in range(it.i, len(it.seq)):
+        r = m.prog.call_closure(m, Ptr([a[1]], 0) if isinstance(a[1], Closure) else a[1], [it.seq[i]])
+        if not m.branch_bool(r, "Iterator::all"):
+            return False
+    return True
+
+
+@model("<Option as PartialEq>::ne")
+def opt_ne(m, a, c):
+    return b_not(opt_eq(m, a, c))
+
+
+@model("Ref::map")
+def ref_map2(m, a, c):
+    return guard_map(m, a, c)
+
+
+@model("tree_builder::NamespaceMapStack::new")
+def tb_nsstack_new(m, a, c):
+    # NamespaceMapStack(vec![NamespaceMap::default()]): the vec! expansion goes through Box<MaybeUninit<[T; 1]>>, which is
+    # not worth interpreting; the element itself is built by the crate's own NamespaceMap::default
+    f = m.prog.by_key.get("NamespaceMap::default")
+    return Struct("NamespaceMapStack", [VecM([m.run_fn(f, [])])])
